@@ -240,6 +240,9 @@ def configs(tier):
                 add(dict(struct=sname, leaves=list(leaves), racc=racc))
                 if not quick or sname in ("dict2", "deep"):
                     add(dict(struct=sname, leaves=list(leaves), racc=racc, annot=True))
+    # the same Register object elaborated a second time (the second elaboration is what is checked)
+    multi = [c for c in out if len(c["leaves"]) >= 2]
+    out += [dict(c, elab_twice=True) for c in multi[::(97 if quick else 23)]]
     return out
 
 
